@@ -376,6 +376,28 @@ def rule_g_prior_share_same_arguments(ctx, fns):
     return n
 
 
+def rule_h_tof_index_passed(ctx, fns):
+    """ProjData::get_(empty_)related_viewgrams(indices, symmetries, make_odd, timing_pos) OVERWRITES the TOF index of `indices` with its
+    last argument (default 0).  The Hessian routines iterate over ViewgramIndices that carry their TOF index, so every such request must
+    pass `indices.timing_pos_num()` explicitly - otherwise all TOF bins are read from / written to TOF bin 0 and the Hessian product of
+    TOF data is wrong."""
+    n = 0
+    seen = set()
+    for f in fns:
+        if f.body is None or f.is_dependent or f.cls != CLS or (f.file, f.line) in seen:
+            continue
+        calls = [c for c in f.calls() if (c.callee or "") in ("stir::ProjData::get_related_viewgrams", "stir::ProjData::get_empty_related_viewgrams") and len(c.call_args()) == 4 and "ViewgramIndices" in (c.callee_info.get("sig") or "").split(",")[0]]
+        if not calls:
+            continue
+        seen.add((f.file, f.line))
+        for i, c in enumerate(calls):
+            a = [key(x.strip()) for x in c.call_args()]
+            ok = a[3] == a[0] + ".timing_pos_num()"
+            ctx.ob("C05.h-tof-index-passed", f.qn + "(" + f.sig[:30] + ")", "%s@%d" % (c.callee.split("::")[-1], i), ok, c.where(), "the TOF index of the viewgram indices is passed explicitly" if ok else "the request is made with TOF index `%s` instead of the TOF index of the viewgram indices it is made for: every TOF bin uses the data of TOF bin %s" % (key(c.call_args()[3], True), key(c.call_args()[3], True)))
+            n += 1
+    return n
+
+
 def run(ctx):
     ctx.explanation = (
         "Decides (a) by finite-domain abstract interpretation of every request function of "
@@ -412,6 +434,8 @@ def run(ctx):
 
     lockstep_sweep(ctx, "C05.e-elementwise-sums", allf)
     ctx.require_count("C05.e-elementwise-sums", 5)
+    rule_h_tof_index_passed(ctx, fns)
+    ctx.require_count("C05.h-tof-index-passed", 7)
     rule_g_prior_share_same_arguments(ctx, allf)
     ctx.require_count("C05.g-prior-share-same-arguments", 3)
     rule_f_one_segment_range(ctx, [f for f in units[0].functions if not f.is_dependent or True])
